@@ -1024,6 +1024,10 @@ class Collocator:
             A xr.Dataset where time, lat and lon are aligned on one shared
             dimension.
         """
+        # We add helper variables below. Do this with a (shallow) copy, the
+        # dataset of the caller must stay as it is:
+        data = data.copy()
+
         # Flat:
         shared_dims = list(
             set(data.time.dims) | set(data.lat.dims) | set(data.lon.dims)
